@@ -249,7 +249,7 @@ pub fn judge(module: &[Decl], text: &str, family: &str, desc: impl Fn() -> Value
 			{
 				ok = false;
 				let codes = front.codes();
-				w.result.violation(&format!("delta-rejects-valid-module:E{}:{family}", codes[0]), size, &desc, || {
+				w.result.violation(&format!("delta-rejects-valid-module:E{}:{family}", codes.first().copied().unwrap_or(0)), size, &desc, || {
 					format!("the second-generation front end rejects a syntactically valid module with {:?} at {:?}", codes, front.diagnostics.first())
 				});
 			}
@@ -396,7 +396,7 @@ fn judge_corpus(path: &str, w: &mut WorkerCtx)
 					w.result.outcome("corpus:only-first-generation-accepts");
 					let codes = front.codes();
 					let name = path.rsplit('/').next().unwrap_or(path).to_string();
-					w.result.violation(&format!("delta-rejects-corpus-file:E{}:{name}", codes[0]), size, &desc, || {
+					w.result.violation(&format!("delta-rejects-corpus-file:E{}:{name}", codes.first().copied().unwrap_or(0)), size, &desc, || {
 						format!("{path} parses without error in the first generation but the second generation reports {:?} at {:?}", codes, front.diagnostics.first())
 					});
 				}
